@@ -29,6 +29,7 @@ type Obligation struct {
 	Pos     string
 	Func    string
 	Note    string
+	LastRet bool
 }
 
 type VC struct {
